@@ -106,18 +106,28 @@ PROPS = {
                             "law tags are syntactic data-flow facts (no SMT)", "model: sortedcontainers"],
     ),
     "C16": dict(
-        functions=[SP + "ShuffleContinuumSampler._remove_pivot_segment"] + [CT + "Continuum." + m for m in (
+        functions=[SP + "ShuffleContinuumSampler.sample_from_continuum", SP + "ShuffleContinuumSampler._remove_pivot_segment",
+                   SP + "AbstractContinuumSampler._has_been_init"] + [CT + "Continuum." + m for m in (
             "copy_flush", "add", "add_annotator", "iter_annotator", "bounds", "__bool__")] + [CT + "Unit.__lt__"],
         oracles=[SP + "ShuffleContinuumSampler.sample_from_continuum"],
         bounded=[dict(oracle=SP + "ShuffleContinuumSampler.sample_from_continuum",
-                      what="sample_from_continuum / _random_from_segments are not under contract yet: seeded draws from random grid continua "
-                           "(2..5 annotators, ground-truth subsets, both pivot types) with the pivots recorded from the harness: every sampled "
-                           "annotator is the wrapped translation of one ground-truth annotator by its pivot, pivots within bounds, whole "
-                           "numbers in int mode, pairwise >= avg unit length / 2 apart; reference unchanged")],
+                      what="_random_from_segments and Continuum.avg_length_unit are ASSUMED (RNG model; mean of positive durations), and the "
+                           "integer-pivot separation is a known finding: seeded draws from random grid continua (2..5 annotators, ground-truth "
+                           "subsets, both pivot types, non-zero lower bounds, integer timestamps) with the pivots recorded from the harness: "
+                           "every sampled annotator is the wrapped translation of one ground-truth annotator by its pivot, pivots within bounds, "
+                           "whole numbers in int mode, pairwise >= avg unit length / 2 apart; reference unchanged")],
         design_ref="DESIGN.md section 4 C16, appendix A.5",
-        not_decided=["uniformity of the pivots (statistical)", "the translation / wrap clauses W1-W3 are bounded only (oracle); W4 rests on the "
-                     "proved contract of _remove_pivot_segment (coverage = input minus the open zone, for all reals)"],
-        trusted=S_COMMON + ["model: python lists (append / pop)", "model: pyannote Segment", "np.random support (oracle side only)"],
+        not_decided=["uniformity of the pivots (statistical)",
+                     "'same number' of units: the proved clause is set-level (the sampled annotator's units are exactly the shifted images of the "
+                     "ground-truth annotator's); equal counts follow from injectivity of the shift, not machine-checked",
+                     "separation is proved for float pivots drawn while a segment is still available ('as long as the continuum is long "
+                     "enough'); integer pivots: whole numbers proved, separation is the known finding C16-int-pivot-separation",
+                     "termination of the retry loop (probabilistic)"],
+        trusted=S_COMMON + ["model: python lists (append / pop)", "model: pyannote Segment",
+                            "model: random generators (support only); _random_from_segments assumed to return a point of one of the "
+                            "given segments (float) / a whole number (int)",
+                            "Continuum.avg_length_unit assumed positive on a continuum with a valid unit",
+                            "pt(x) = True: a trigger predicate for clauses quantified over real points"],
     ),
     "C03": dict(
         functions=[DS + "AbstractDissimilarity._compute_alignment_disorders", DS + "AbstractDissimilarity._build_arrays_continuum",
